@@ -92,6 +92,7 @@ type Net struct {
 	start     time.Time
 	listeners map[string]*Listener
 	hosts     map[string]string // lower-case name -> ip
+	suffixes  []hostSuffix      // wildcard DNS: any name ending in suffix -> ip
 	nodeIP    map[string]string
 	ipNode    map[string]string
 	dials     []*dialReq
@@ -114,6 +115,8 @@ type Net struct {
 
 	Stats Stats
 }
+
+type hostSuffix struct{ suffix, ip string }
 
 type Stats struct {
 	DialsAccepted, DialsRefused, DialsBlackholed, DialsCanceled int
@@ -153,6 +156,33 @@ func (n *Net) AddHost(name, ip string) {
 	n.mu.Lock()
 	defer n.mu.Unlock()
 	n.hosts[strings.ToLower(name)] = ip
+}
+
+// AddHostSuffix makes every name ending in suffix (e.g. ".denied.example") resolve to ip.
+func (n *Net) AddHostSuffix(suffix, ip string) {
+	n.mu.Lock()
+	defer n.mu.Unlock()
+	n.suffixes = append(n.suffixes, hostSuffix{strings.ToLower(suffix), ip})
+}
+
+func (n *Net) lookupLocked(name string) (string, bool) {
+	name = strings.ToLower(strings.TrimSuffix(name, "."))
+	if ip, ok := n.hosts[name]; ok {
+		return ip, true
+	}
+	for _, s := range n.suffixes {
+		if strings.HasSuffix(name, s.suffix) {
+			return s.ip, true
+		}
+	}
+	return "", false
+}
+
+// Lookup resolves a name like the simulated DNS would.
+func (n *Net) Lookup(name string) (string, bool) {
+	n.mu.Lock()
+	defer n.mu.Unlock()
+	return n.lookupLocked(name)
 }
 
 func (n *Net) NodeOfIP(ip string) string {
@@ -221,7 +251,9 @@ func (n *Net) Listen(node, addr string) (*Listener, error) {
 	if ip, ok := n.hosts[strings.ToLower(h)]; ok {
 		h = ip
 	}
-	if p == "0" || p == "" {
+	if p == "*" {
+		// wildcard: accepts connections to any port of this address that has no listener of its own
+	} else if p == "0" || p == "" {
 		n.portSeq["listen:"+h]++
 		p = strconv.Itoa(20000 + n.portSeq["listen:"+h])
 	}
@@ -297,13 +329,16 @@ func (n *Net) Dial(ctx context.Context, from, hostport string) (net.Conn, error)
 	n.mu.Lock()
 	ip := h
 	if net.ParseIP(h) == nil {
-		rip, ok := n.hosts[strings.ToLower(strings.TrimSuffix(h, "."))]
+		rip, ok := n.lookupLocked(h)
 		if !ok {
 			n.Dials = append(n.Dials, &DialRecord{From: from, Host: hostport, Outcome: "nxdomain", At: n.Now()})
 			n.mu.Unlock()
 			return nil, opErr("dial", nil, nil, &net.DNSError{Err: "no such host", Name: h, IsNotFound: true})
 		}
 		ip = rip
+	}
+	if pip := net.ParseIP(ip); pip != nil {
+		ip = pip.String() // canonical spelling
 	}
 	if ip == "0.0.0.0" || ip == "::" {
 		ip = n.nodeIP[from] // connecting to the unspecified address reaches the local host
@@ -876,6 +911,13 @@ func (n *Net) resolveDialLocked(req *dialReq) string {
 		outcome = n.DialFault(req.from, req.addr, 0)
 	}
 	l := n.listeners[req.addr]
+	if l == nil || l.closed {
+		if h, _, err := net.SplitHostPort(req.addr); err == nil {
+			if wl := n.listeners[net.JoinHostPort(h, "*")]; wl != nil && !wl.closed {
+				l = wl
+			}
+		}
+	}
 	if outcome == DialAccept && (l == nil || l.closed) {
 		outcome = DialRefuse
 	}
